@@ -6,6 +6,8 @@ pub mod r#type;
 pub mod unit;
 pub mod unwind;
 mod utils;
+#[cfg(feature = "verif")]
+pub use utils::PathSearchIndex as VerifPathSearchIndex;
 
 pub use self::unwind::DwarfUnwinder;
 
